@@ -119,7 +119,7 @@ def run_models(ctx, pid):
         ]
         # ramalhete_queue over the adversarial abstract reclaimer, incl. element ownership and the node / queue destructors
         jobs += [
-            lambda: tlc_mc(ctx, 'rq_lost', 'Ramalhete', rq_consts(), invariants=INV_RQ, view='mcview', workers=6),
+            lambda: tlc_mc(ctx, 'rq_lost', 'Ramalhete', rq_consts(), invariants=INV_RQ, view='mcview', workers=6, must_cover=RQ_ACTIONS),
             lambda: tlc_mc(ctx, 'rq_full_node', 'Ramalhete', rq_consts(Progs='<-ProgFull', NNodes=4), invariants=INV_RQ, view='mcview', workers=4),
             lambda: tlc_mc(ctx, 'rq_epn2_retries', 'Ramalhete', rq_consts(Progs='<-ProgFull', EPN=2, PopRetries=1), invariants=INV_RQ, view='mcview', workers=4),
             lambda: tlc_mc(ctx, 'rq_toggle_tail_lags', 'Ramalhete', rq_consts(Progs='<-ProgTail', HelpTail=False), invariants=INV_RQ, view='mcview', workers=4, expect='violation'),
@@ -133,7 +133,7 @@ def run_models(ctx, pid):
                            workers=4, expect='violation'),
         ]
         if not q:
-            jobs += [lambda: tlc_mc(ctx, 'rq_mix', 'Ramalhete', rq_consts(Progs='<-ProgMix'), invariants=INV_RQ, view='mcview', workers=6, must_cover=RQ_ACTIONS),
+            jobs += [lambda: tlc_mc(ctx, 'rq_mix', 'Ramalhete', rq_consts(Progs='<-ProgMix'), invariants=INV_RQ, view='mcview', workers=6),
                      lambda: tlc_mc(ctx, 'rq_mix_epn2', 'Ramalhete', rq_consts(Progs='<-ProgMix', EPN=2), invariants=INV_RQ, view='mcview', workers=6),
                      lambda: tlc_mc(ctx, 'rq_3t', 'Ramalhete', rq_consts(NT=3, Progs='<-Prog3', NNodes=4), invariants=INV_RQ, view='mcview', workers=12, tmo=3000, heap='24g'),
                      lambda: tlc_mc(ctx, 'rq_3producers', 'Ramalhete', rq_consts(NT=3, Progs='<-Prog3P', NNodes=4), invariants=INV_RQ, view='mcview', workers=12, tmo=3000,
